@@ -125,3 +125,43 @@ func Laggards(n, k, warm, quiet, steps int) *Scenario {
 	seed = append(seed, FairSeed(seq(n), steps, 4)...)
 	return &Scenario{Name: fmt.Sprintf("laggards%d-%d", n, k), Cfg: sim.Config{N: n}, Seed: seed}
 }
+
+// Rejoin: validator n-1 leaves after `at` steps, the others go on for `mid`
+// steps (the removal becomes effective and the leaver suspends itself), then
+// the same key is started again with an empty store, asks validator 0 to join
+// and replays history from genesis (including its own former events).
+func Rejoin(n, at, mid, steps int) *Scenario {
+	seed := FairSeed(seq(n), at, 4)
+	seed = append(seed, Action{K: "L", A: n - 1})
+	seed = append(seed, FairSeed(seq(n), mid, 5)...)
+	seed = append(seed, Action{K: "Start", A: n - 1, B: 0}, Action{K: "J", A: n - 1, B: 0})
+	seed = append(seed, FairSeed(seq(n), steps, 5)...)
+	return &Scenario{Name: fmt.Sprintf("rejoin%d", n), Cfg: sim.Config{N: n}, Seed: seed, Asked: map[int]int{n - 1: 0}}
+}
+
+// Refused: key n asks to join and every application refuses it; the joiner
+// stays outside (it never gossips), the validators go on.
+func Refused(n, at, steps int) *Scenario {
+	seed := FairSeed(seq(n), at, 4)
+	seed = append(seed, Action{K: "Start", A: n, B: 0}, Action{K: "J", A: n, B: 0})
+	seed = append(seed, FairSeed(seq(n), steps, 5)...)
+	return &Scenario{Name: fmt.Sprintf("refused%d", n), Cfg: sim.Config{N: n, RefuseJoin: map[int]bool{n: true}}, Seed: seed, Asked: map[int]int{n: 0}}
+}
+
+// Partition: after `at` fair steps the validators split into [0,k) and [k,n)
+// which gossip only among themselves for `length` steps each (neither side
+// needs to hold a supermajority), then the partition heals.
+func Partition(n, k, at, length, steps int) *Scenario {
+	seed := FairSeed(seq(n), at, 4)
+	a, b := FairSeed(seq(n)[:k], length, 4), FairSeed(seq(n)[k:], length, 4)
+	for len(a) > 0 || len(b) > 0 {
+		if len(a) > 0 {
+			seed, a = append(seed, a[0]), a[1:]
+		}
+		if len(b) > 0 {
+			seed, b = append(seed, b[0]), b[1:]
+		}
+	}
+	seed = append(seed, FairSeed(seq(n), steps, 4)...)
+	return &Scenario{Name: fmt.Sprintf("partition%d-%d", n, k), Cfg: sim.Config{N: n}, Seed: seed}
+}
